@@ -38,7 +38,8 @@ class C02(core.Property):
     self.ndev = len(jax.local_devices())
 
     def init(shared, inp):
-      return {'a': jnp.stack([shared['s'] + inp['i'], inp['i']]), 'cnt': jnp.int32(0)}
+      # 'seen' starts as an int32 counter and becomes float32 at the first step (a state leaf may change dtype)
+      return {'a': jnp.stack([shared['s'] + inp['i'], inp['i']]), 'cnt': jnp.int32(0), 'seen': jnp.int32(0)}
 
     def mk_step(kind):
       def step(st, batch):
@@ -50,11 +51,12 @@ class C02(core.Property):
           na, r = jnp.stack([2 * a0 + s, a1 - s]), a0
         else:
           na, r = jnp.stack([a0 + 1 / s, a1 + s]), 1 / s
-        return {'a': na, 'cnt': st['cnt'] + 1}, {'r': r, 'px': batch['x'] + a0}
+        return {'a': na, 'cnt': st['cnt'] + 1, 'seen': st['seen'] + jnp.float32(0.5)}, {'r': r, 'px': batch['x'] + a0}
       return step
 
     def final(shared, st):
-      return {'o': jnp.stack([shared['s'] * st['a'][0], st['a'][1], st['cnt'].astype(jnp.float32)])}
+      return {'o': jnp.stack([shared['s'] * st['a'][0], st['a'][1], st['cnt'].astype(jnp.float32)]),
+              'seen': st['seen'].astype(jnp.float32)}
 
     self.init, self.mk_step, self.final = init, mk_step, final
 
@@ -81,7 +83,8 @@ class C02(core.Property):
     return {'kind': rng.randrange(3), 'shared': rng.choice([1, 2, -1, 3]), 'clients': clients,
             'D': rng.randrange(1, min(8, self.ndev) + 1), 'backend': backend,
             'with_step_result': rng.random() < 0.8, 'committed': rng.random() < 0.5,
-            'shared2': rng.choice([None, -3, 5, 4]), 'idkind': rng.choice(['int', 'odd', 'odd'])}
+            'shared2': rng.choice([None, -3, 5, 4]), 'idkind': rng.choice(['int', 'odd', 'odd']),
+            'typed_keys': rng.random() < 0.3}
 
   def _gen_sched(self, rng):
     """ops: 0 get, 1 set, 2 enter a `with` block, 3 leave it, 4 call a function decorated with
@@ -110,7 +113,7 @@ class C02(core.Property):
         kinds[t].append('d')
       if code in (3, 5):
         kinds[t].pop()
-      ops.append([t, code, arg, rng.random() < 0.4])   # last: leave by exception
+      ops.append([t, code, arg, rng.choice([0, 0, 0, 1, 2])])   # last: leave normally / by KeyError / by GeneratorExit
     return {'sched': ops, 'threads': nt}
 
   def shrink(self, case):
@@ -164,8 +167,14 @@ class C02(core.Property):
       shared = {'s': jax.device_put(shared['s'], jax.local_devices()[0])}
     rid = {mid: self._rid(case, mid) for mid, _, _ in case['clients']}
     back = {repr(v): k for k, v in rid.items()}
-    mk = lambda: [(rid[cid], [{'x': jnp.asarray(b, dtype=jnp.float32)} for b in batches],
-                   {'i': jnp.float32(inp)}) for cid, inp, batches in case['clients']]
+    typed = bool(case.get('typed_keys'))
+    def mk_in(inp, j):
+      d = {'i': jnp.float32(inp)}
+      if typed:            # a new-style typed PRNG key travelling with the client input (never consumed)
+        d['k'] = jax.random.key(j)
+      return d
+    mk = lambda: [(rid[cid], [{'x': jnp.asarray(b, dtype=jnp.float32)} for b in batches], mk_in(inp, j))
+                  for j, (cid, inp, batches) in enumerate(case['clients'])]
     clients = mk()
     snap_shared = np.asarray(shared['s']).copy()
     snap = [(np.asarray(ci['i']).copy(), [np.asarray(b['x']).copy() for b in bs]) for _, bs, ci in clients]
@@ -204,7 +213,7 @@ class C02(core.Property):
         if not np.array_equal(np.asarray(shared['s']), snap_shared):
           problems.append('shared input changed')
         for (ci_s, bs_s), (_, bs, ci) in zip(snap, clients):
-          if not np.array_equal(np.asarray(ci['i']), ci_s):
+          if not np.array_equal(np.asarray(ci['i']), ci_s[0] if isinstance(ci_s, tuple) else ci_s):
             problems.append('client input changed')
           for bb, b_s in zip(bs, bs_s):
             if not np.array_equal(np.asarray(bb['x']), b_s):
@@ -244,6 +253,9 @@ class C02(core.Property):
             for r_i, r_e in zip(srs, expect[cid][1]):
               if frac_list(r_i['px']) != frac_list(r_e['px']):
                 problems.append(f'call {call_no} client {cid}: per-example step result differs from sequential')
+          if frac_list(out['seen']) != frac_list(expect[cid][0]['seen']):
+            problems.append(f'call {call_no} client {cid}: state leaf whose dtype changes at the first step: '
+                            f'{frac_list(out["seen"])} != sequential fold {frac_list(expect[cid][0]["seen"])}')
           if any(x != x for x in np.asarray(out['o']).tolist()):
             problems.append(f'call {call_no} client {cid}: NaN in output')
 
@@ -270,7 +282,7 @@ class C02(core.Property):
     tags = (f'backend={backend_name}', f'kind={kind}', f'nclients={min(len(mclients), 6)}',
             f'mult_of_D={len(mclients) % D == 0}', f'batchcounts={"uniform" if len(nbs) <= 1 else "mixed"}',
             f'zero_batch_client={any(len(c[2]) == 0 for c in case["clients"])}', f'wsr={wsr}', f'committed_shared={bool(case.get("committed"))}',
-            f'second_call={case.get("shared2") is not None}', f'ids={case.get("idkind", "int")}')
+            f'second_call={case.get("shared2") is not None}', f'ids={case.get("idkind", "int")}', f'typed_keys={bool(case.get("typed_keys"))}')
     return Outcome(oracle_fail='; '.join(problems[:4]) or None, corr_fail='; '.join(corr[:3]) or None,
                    nontrivial=len(nbs) > 1, tags=tags,
                    detail={'impl': {k: [list(map(str, v[0])), None if v[1] is None else list(map(str, v[1]))]
@@ -357,11 +369,12 @@ class C02(core.Property):
             elif code == 3:
               cm = stack.pop()
               if by_exc:
-                e = KeyError('boom')
+                etype = GeneratorExit if by_exc == 2 else KeyError
+                e = etype('boom')
                 try:
-                  if cm.__exit__(KeyError, e, None):
+                  if cm.__exit__(etype, e, None):
                     got = 'swallowed'
-                except KeyError:
+                except (KeyError, GeneratorExit):
                   pass
               else:
                 cm.__exit__(None, None, None)
@@ -371,14 +384,14 @@ class C02(core.Property):
                 raise w
               try:
                 w(lambda: loop(ddepth + 1, True))
-              except KeyError:
+              except (KeyError, GeneratorExit):
                 pass                               # the decorated function was left by an exception
               # the inner loop has answered the call op; this answer belongs to the return op
               respond(None, False, ddepth)
               continue
             elif code == 5:
               if by_exc:
-                raise KeyError('boom')
+                raise (GeneratorExit if by_exc == 2 else KeyError)('boom')
               return
             elif code == 9:
               pass
@@ -437,7 +450,8 @@ class C02(core.Property):
         want = saved[t].pop()
         if curs[t] != want:
           what = 'leaving a with block' if code == 3 else 'returning from a function decorated with the context manager'
-          problems.append(f'{what}{" by exception" if by_exc else ""} restored {curs[t]} instead of {want}')
+          how = {0: '', 1: ' by an exception', 2: ' by GeneratorExit (a generator holding the block was closed early)'}[int(by_exc)]
+          problems.append(f'{what}{how} restored {curs[t]} instead of {want}')
         if got == 'swallowed':
           problems.append('context manager swallowed the exception')
       prev = list(curs)
